@@ -834,9 +834,14 @@ class Executor:
         if k == "local":
             return Ref(fr[pl[1]])
         if k == "deref":
-            r = self.load(self.place_ref(fr, pl[1]))
+            inner = self.place_ref(fr, pl[1])
+            r = self.load(inner)
             if isinstance(r, Ref):
                 return r
+            if isinstance(r, (SeqObj, MapObj, StrVal, CharStr)):
+                # a harness object standing directly where the code holds a reference to it (&Vec<T> / &[T] / &str): the
+                # reference and the object coincide
+                return inner
             raise Unsupported("deref of non-reference %r in %s" % (r, pl))
         if k == "field":
             r = self.place_ref(fr, pl[1])
